@@ -213,7 +213,7 @@ def pmtm(x, NW=None, k=None, NFFT=None, e=None, v=None, method="adapt", show=Fal
         sig2 = np.sum(np.abs(x) ** 2) / float(N)
         Sk = abs(np.fft.fft(np.multiply(tapers.transpose(), x), NFFT)) ** 2
         Sk = Sk.transpose()
-        S = (Sk[:, 0] + Sk[:, 1]) / 2  # Initial spectrum estimate
+        S = np.mean(Sk[:, 0:2], axis=1)  # Initial spectrum estimate
         S = S.reshape(NFFT, 1)
         Stemp = np.zeros((NFFT, 1))
         S1 = np.zeros((NFFT, 1))
